@@ -155,6 +155,9 @@ func (x *Exec) staticCall(fr *Frame, ins ssa.Instruction, fn *ssa.Function, bind
 		// the call under verification: the real body, with safety obligations on
 		saved := x.specDepth
 		x.specDepth = 0
+		// vacuity guard: the preconditions (and everything assumed so far) must be satisfiable
+		x.obls = append(x.obls, &Obligation{Name: shortFn(x.targetName()) + "/cover:pre" + x.caseTag, Kind: "cover", Pos: x.position(ins.Pos()),
+			Fn: x.targetName(), nAssume: len(x.assumes), goal: st.guard, IsCover: true})
 		pre := st.clone()
 		res, nst := x.callFunction(fn, args, bindings, st)
 		x.specDepth = saved
